@@ -125,6 +125,7 @@ def templates():
     def R(fmt):
         return lambda *s: raw(fmt % tuple(x.cpp for x in s))
     t = [
+        ("seq1", 1, R("seq< %s >"), ""), ("sor1", 1, R("sor< %s >"), ""),          # one-element forms: their own code path in seq.hpp / sor.hpp
         ("seq2", 2, A("seq"), "classical"), ("seq3", 3, A("seq"), "classical"),
         ("sor2", 2, A("sor"), "classical"), ("sor3", 3, A("sor"), "classical"),
         ("star1", 1, A("star"), "classical loop"), ("star2", 2, A("star"), "classical loop"),
